@@ -47,3 +47,26 @@ pub fn boundary_u64() -> BoxedStrategy<u64> {
 pub fn hex(bytes: &[u8]) -> String {
   hex::encode(bytes)
 }
+
+/// A u128 that serialises as a decimal string (JSON numbers stop at u64).
+#[derive(Clone, Copy, PartialEq, Eq, Hash, PartialOrd, Ord, Default)]
+pub struct U128(pub u128);
+
+impl std::fmt::Debug for U128 {
+  fn fmt(&self, f: &mut std::fmt::Formatter) -> std::fmt::Result {
+    write!(f, "{}", self.0)
+  }
+}
+
+impl serde::Serialize for U128 {
+  fn serialize<S: serde::Serializer>(&self, serializer: S) -> Result<S::Ok, S::Error> {
+    serializer.serialize_str(&self.0.to_string())
+  }
+}
+
+impl<'de> serde::Deserialize<'de> for U128 {
+  fn deserialize<D: serde::Deserializer<'de>>(deserializer: D) -> Result<Self, D::Error> {
+    let s = String::deserialize(deserializer)?;
+    s.parse::<u128>().map(U128).map_err(serde::de::Error::custom)
+  }
+}
